@@ -43,6 +43,8 @@ ModsOf(d) ==
 
 WithDflt(f, v) == [f EXCEPT !.dflt = v]
 SubD == Class(DefaultOpts, <<WithDflt(U1("x"), 7), IntF("y", 2, TRUE, "little")>>)
+SubLenD == Class(DefaultOpts, <<WithDesc(U1("n"), [kind |-> "autolen", of |-> "d"]), DataF("d", SzMarker(<<0>>, FALSE, TRUE))>>)
+LenV(n, d) == PktV("C1", <<[n |-> "n", v |-> IntV(n)], [n |-> "d", v |-> BytesV(d)]>>)
 SubV(x, y) == PktV("C1", <<[n |-> "x", v |-> IntV(x)], [n |-> "y", v |-> IntV(y)]>>)    \* a complete value of class SubD
 
 UV_Smoke(zz) == {
@@ -177,6 +179,12 @@ U_C19(zz) ==
      VDecl([C0 |-> Class(DefaultOpts, <<U1("t"), RefSelF("v", EF("t"), <<[key |-> 0, alt |-> IntF("", 2, FALSE, "default")],
                                                                           [key |-> 1, alt |-> RefF("", "C1")]>>, "chooses", IntV(3)),
                                         DataF("m", SzMarker(<<0>>, FALSE, TRUE)), EmF("tail")>>), C1 |-> SubD], "subsets", 0, FALSE),
+     \* nested packets with a described field in declared defaults: the prototype of a plain reference built WITH the keyword
+     \* (clones keep it assigned), a list default and an optional default holding packets built with it
+     VDecl([C0 |-> Class(DefaultOpts, <<U1("t"), [RefF("s", "C1") EXCEPT !.over = <<[n |-> "n", v |-> IntV(9)]>>],
+                                        [RepCountF("r", RefF("e", "C1"), SzConst(1), NoCond, 0) EXCEPT !.dflt = <<LenV(9, <<65, 66>>)>>],
+                                        [OptF("o", RefF("e", "C1"), SzField("t")) EXCEPT !.dflt = LenV(7, <<>>)]>>),
+            C1 |-> SubLenD], "subsets", 0, FALSE),
      \* a declared default written as a TUPLE of packets: every construction still gets elements of its own
      VDecl([C0 |-> Class(DefaultOpts, <<U1("n"), [RepCountF("r", RefF("e", "C1"), SzConst(2), NoCond, 0)
                                                     EXCEPT !.dflt = <<SubV(3, 0), SubV(7, 0)>>] @@ [tupledflt |-> TRUE]>>), C1 |-> SubD], "subsets", 0, FALSE),
